@@ -345,7 +345,7 @@ impl Prop for C12 {
             "a broadcast must reach a client exactly once if that client stays connected from before the broadcast is requested until the end of the scenario; clients in the admission/removal window at most once".into(),
             "messages written before an abrupt FIN (half-close: the client still reads) are still owed, TCP delivers them before the FIN; messages of a client that went silent, or that closed its socket outright (the server's Pong or reply then fails and the connection is given up), are dispatched at most once".into(),
             "heartbeat timeouts are 1.5 x, 2 x (Humphrey's default ratio) or several times the interval, and the network round trip is kept below an eighth of (timeout - interval): a live client's last pong is then never older than the timeout when it is checked".into(),
-            "the streams map iterates in a fixed (seeded-hasher) order under the hook; RandomState order is not explored".into(),
+            "the streams map is hashed with a key drawn from the run's entropy stream under the hook, so its iteration order (dispatch and broadcast order) varies from run to run as it does with RandomState from process to process".into(),
             "poll intervals are 1..10 ms, or none at all (one case in eight): the loop then spins and virtual time advances only by the per-decision CPU cost, drawn up to 40 us in those cases".into(),
         ]
     }
